@@ -269,4 +269,64 @@ theorem updR_spec (s : Store) (r : Res) : UpdRSpec s r (s.updR r).1 (s.updR r).2
       split
       · next hn => exact .noop x hg hrv' hn.symm
       · next hn => exact .put x hg hrv'
+/-! ### specification of the admission webhook and of a delete request -/
+
+/-- what `validateNoUsages` can answer; `n` is the number of Usages the List returned -/
+inductive AdmitSpec (s : Store) (r : Res) (p : String) (n : Nat) : Store → Verdict → Prop where
+  | listFailed : AdmitSpec s r p n s .errored
+  | patchFailed : n > 0 → r.attempt ≠ some (effPolicy p) → AdmitSpec s r p n s .errored
+  | deniedRecorded : n > 0 → r.attempt = some (effPolicy p) → AdmitSpec s r p n s .denied
+  | deniedPatched : n > 0 → r.attempt ≠ some (effPolicy p) →
+      AdmitSpec s r p n (s.putR { r with attempt := some (effPolicy p), rv := s.nextRv }).bump .denied
+  | allowed : n = 0 → AdmitSpec s r p n s .allowed
+
+theorem admitDelete_spec (s : Store) (r : Res) (p : String) (lo po : Bool) (st : Option Nat) :
+    AdmitSpec s r p (st.getD (s.countU (indexKey r.group r.kind r.name)))
+      (s.admitDelete r p lo po st).1 (s.admitDelete r p lo po st).2 := by
+  unfold Store.admitDelete
+  split
+  · exact .listFailed
+  · split
+    · next hn =>
+      split
+      · next ha =>
+        split
+        · exact .patchFailed hn ha
+        · exact .deniedPatched hn ha
+      · next ha => exact .deniedRecorded hn (by simpa using ha)
+    · next hn => exact .allowed (by omega)
+
+/-- no faults: the answer is denied or allowed -/
+theorem admitDelete_ok (s : Store) (r : Res) (p : String) (st : Option Nat) :
+    (s.admitDelete r p true true st).2 ≠ .errored := by
+  unfold Store.admitDelete
+  simp only [Bool.not_true, Bool.false_eq_true, if_false]
+  split
+  · split <;> simp
+  · simp
+
+inductive DeleteSpec (s : Store) (g k n p : String) (lo po : Bool) (st : Option Nat) : Store → DelResult → Prop where
+  | notFound : s.getR g k n = none → DeleteSpec s g k n p lo po st s .notFound
+  | unlabelled (r : Res) : s.getR g k n = some r → r.inUse = false →
+      DeleteSpec s g k n p lo po st (s.dropR g k n) (.done false .allowed)
+  | refused (r : Res) (v : Verdict) : s.getR g k n = some r → r.inUse = true →
+      (s.admitDelete r p lo po st).2 = v → v ≠ .allowed →
+      DeleteSpec s g k n p lo po st (s.admitDelete r p lo po st).1 (.done true v)
+  | admitted (r : Res) : s.getR g k n = some r → r.inUse = true →
+      (s.admitDelete r p lo po st).2 = .allowed →
+      DeleteSpec s g k n p lo po st ((s.admitDelete r p lo po st).1.dropR g k n) (.done true .allowed)
+
+theorem deleteRes_spec (s : Store) (g k n p : String) (lo po : Bool) (st : Option Nat) :
+    DeleteSpec s g k n p lo po st (s.deleteRes g k n p lo po st).1 (s.deleteRes g k n p lo po st).2 := by
+  unfold Store.deleteRes
+  split
+  · next hg => exact .notFound hg
+  · next r hg =>
+    split
+    · next hin =>
+      split
+      · next hv => exact .admitted r hg hin hv
+      · next v hv => exact .refused r _ hg hin rfl (fun h => hv h)
+    · next hin => exact .unlabelled r hg (by simpa using hin)
+
 end Xp.C19
